@@ -21,7 +21,15 @@ import (
 // ---------- deterministic PRNG (splitmix64); every random choice derives from VERIF_SEED ----------
 type rng struct{ s uint64 }
 
-func newRng(seed uint64) *rng { return &rng{s: seed*0x9E3779B97F4A7C15 + 0x1234567} }
+// The seed is passed through the splitmix finalizer before it becomes the state: with the state
+// seed*GOLDEN + c (as it was at first) the streams of consecutive seeds were the same stream
+// shifted by one draw, so "seeds 1, 2, 3" explored nearly the same cases.
+func newRng(seed uint64) *rng {
+	z := seed*0x9E3779B97F4A7C15 + 0x1234567
+	z = (z ^ (z >> 30)) * 0xBF58476D1CE4E5B9
+	z = (z ^ (z >> 27)) * 0x94D049BB133111EB
+	return &rng{s: z ^ (z >> 31)}
+}
 func (r *rng) next() uint64 {
 	r.s += 0x9E3779B97F4A7C15
 	z := r.s
